@@ -183,7 +183,9 @@ impl C09 {
     }
 
     fn java_settings(&self, cx: &mut Cx) {
-        let host = match cx.rng.below(6) {
+        let host = match cx.rng.below(8) {
+            6 => cx.rng.pick(&["mc.example.com:25565", "::1", "2001:db8::25", "a:b", "name:65536", "[::1]:25565", "host:0", "fe80::dead:beef", "x:1"]).to_string(),
+            7 => cx.rng.pick(&["MC.Example.ORG", " padded ", "dot.", ".dot", "a..b", "xn--mnchen-3ya.example", "münchen.example", "localhost", "127.0.0.1"]).to_string(),
             0 => String::new(),
             1 => "a".repeat(255),
             2 => cx.rng.text(40, &[]),
